@@ -283,6 +283,44 @@ func (e *env) clone() *env {
 	return n
 }
 
+// isVerifHook: an expression statement calling one of the instrumentation hooks (verifEvt…, verifBP, …), whose
+// implementations without the build tag `verif` are empty functions (verif_hooks_off.go).
+func isVerifHook(s ast.Stmt) bool {
+	es, ok := s.(*ast.ExprStmt)
+	if !ok {
+		return false
+	}
+	call, ok := es.X.(*ast.CallExpr)
+	if !ok {
+		return false
+	}
+	id, ok := call.Fun.(*ast.Ident)
+	return ok && strings.HasPrefix(id.Name, "verifEvt")
+}
+
+// checkHooksOff: the translator skips hook call statements, which is sound only if the hook functions compiled
+// without the build tag do nothing: every verifEvt… function of verif_hooks_off.go must have an empty body.
+func checkHooksOff() error {
+	path := repo + "/verif_hooks_off.go"
+	if _, err := os.Stat(path); err != nil {
+		return nil // no hooks in this tree
+	}
+	f, err := parser.ParseFile(token.NewFileSet(), path, nil, 0)
+	if err != nil {
+		return err
+	}
+	for _, d := range f.Decls {
+		fd, ok := d.(*ast.FuncDecl)
+		if !ok || !strings.HasPrefix(fd.Name.Name, "verifEvt") {
+			continue
+		}
+		if fd.Body == nil || len(fd.Body.List) != 0 {
+			return fmt.Errorf("%s in verif_hooks_off.go is not an empty function", fd.Name.Name)
+		}
+	}
+	return nil
+}
+
 type trans struct {
 	spec   *FunSpec
 	ignore map[string]bool
@@ -560,8 +598,8 @@ func (t *trans) stmts(list []ast.Stmt, e *env, k func(*env) string) string {
 	}
 	s, rest := list[0], list[1:]
 	cont := func(e2 *env) string { return t.stmts(rest, e2, k) }
-	if t.ignore[src(s)] || strings.HasPrefix(src(s), "Logger.Print") {
-		return cont(e) // explicitly ignored statements and log output
+	if t.ignore[src(s)] || strings.HasPrefix(src(s), "Logger.Print") || isVerifHook(s) {
+		return cont(e) // explicitly ignored statements, log output, and the verif hooks (no-ops without the build tag)
 	}
 	if asg, ok := t.calls[src(s)]; ok {
 		cur := e
@@ -993,6 +1031,9 @@ func main() {
 		os.Exit(1)
 	}
 	loadAllConsts()
+	if err := checkHooksOff(); err != nil {
+		fmt.Println("EXTRACT-ERROR hooks:", err)
+	}
 	var out strings.Builder
 	out.WriteString("import SaramaVerif.GoSem\n/-! REGENERATED on every check run from /repo by /verif/tools/extract (spec: tools/extract/specs/" + *prop + ".json). Do not edit. -/\nset_option linter.unusedVariables false\nnamespace Gen." + *prop + "\n\n")
 	for i := range spec.Consts {
